@@ -45,6 +45,12 @@ LIB_B = {            # 3 x 2 grid for the option machine
     "N": _rect(1, 2, 0, 0),
     "C": [(0, 1), (1, 1), (2, 1), (0, 0), (2, 0)],            # concave (notch in the top row)
 }
+LIB_D = {            # 6 x 3 grid: notches two rows deep, so that a line in row 0 crossing the notch is really cut in two
+    "V": [(i, 2) for i in range(6)] + [(i, j) for i in (0, 1, 3, 4, 5) for j in (0, 1)],      # arms of 2 and 3 cells
+    "W": [(i, 2) for i in range(6)] + [(i, j) for i in (0, 1, 4, 5) for j in (0, 1)],         # two equal arms (ties)
+    "T": _rect(0, 5, 0, 2),                                                                    # contains V and W
+}
+LIBS = {"A": (LIB_A, 6, 2), "B": (LIB_B, 3, 2), "D": (LIB_D, 6, 3)}
 # explicit ring of the self-touching shape (the outline passes twice through the corner (4, 2))
 RINGS = {"S": [(0, 0), (4, 0), (4, 2), (8, 2), (8, 4), (4, 4), (4, 2), (0, 2)]}
 INVALID = {"S"}
@@ -68,9 +74,8 @@ def mc_module(lib, names, root):
     return "---- MODULE MC_%s ----\nEXTENDS %s\nMCShapes == {%s}\n====\n" % (root, root, ",\n ".join(items))
 
 
-def constants(ncols, nrows, maxregs, maxlines, mode, legacy=False):
-    return {"Shapes": "<- MCShapes", "NCols": ncols, "NRows": nrows, "MaxRegs": maxregs, "MaxLines": maxlines,
-            "Mode": mode, "Legacy": legacy}
+def constants(ncols, nrows, maxregs, maxlines, legacy=False):
+    return {"Shapes": "<- MCShapes", "NCols": ncols, "NRows": nrows, "MaxRegs": maxregs, "MaxLines": maxlines, "Legacy": legacy}
 
 
 def all_lines(ncols, nrows):
@@ -143,7 +148,7 @@ def run_assign(case):
     """one real call of assign_lines_to_regions; case = {"lib", "regs", "lines", "npts"}"""
     from pero_ocr.layout_engines import layout_helpers as helpers
     from pero_ocr.core.layout import RegionLayout
-    lib = LIB_A if case["lib"] == "A" else LIB_B
+    lib = LIBS[case["lib"]][0]
     regions = [RegionLayout(n, ring_of(lib, n)) for n in case["regs"]]
     bl, hl, tl = _detected(case["lines"], case["npts"])
     tr = {"kind": "assign", "regs": list(case["regs"]), "lines": [list(x) for x in case["lines"]],
@@ -222,7 +227,7 @@ _GRID_B = (3, 2)
 def run_case(case):
     global _GRID
     if case["kind"] == "assign":
-        _GRID = (6, 2) if case["lib"] == "A" else _GRID_B
+        _GRID = LIBS[case["lib"]][1:]
         return run_assign(case)
     _GRID = _GRID_B
     return run_extract(case)
@@ -241,7 +246,7 @@ def signature(tr, prog):
         cls = "self-touching-region" if any(n in INVALID for n in tr["regs"]) else "simple-regions"
         what = {0: tr["outcome"], 1: "duplicate-line-ids", 2: "piece-not-allowed", 3: "outline-not-clipped",
                 4: "wholly-inside-not-kept"}.get(prog, "clause%d" % prog)
-        return "assign:%s:%s" % (what, cls)
+        return "assign:%s:%s" % (cls, what)
     o = tr["opts"]
     what = {0: tr["outcome"], 1: "duplicate-line-ids", 2: "line-outside-region"}.get(prog, "clause%d" % prog)
     return "extract:%s:dr=%d,dl=%d,merge=%d,multi=%d" % (what, o["dr"], o["dl"], o["merge"], o["multi"])
@@ -254,6 +259,10 @@ def judge(ctx, cases, traces, lib_names, consts, label, drift=True):
     acc, rej = ctx.validate("MC_RegionAssign_Trace", traces, constants=dict(consts, Detailed=False), files=files, shards=shards,
                             label="RegionAssign_Trace " + label)
     rejected = {i for i, _ in rej}
+    tally = ctx.notes.setdefault("rejected_by_signature", {})
+    for i, prog in rej:
+        sg_ = signature(traces[i], prog)
+        tally[sg_] = tally.get(sg_, 0) + 1
     for case, tr in zip(cases, traces):
         n = len(tr["placed"]) if tr["kind"] == "assign" else sum(len(r["lines"]) for r in tr["result"])
         ctx.count(1, (tr["kind"], repr(case)) if n > 0 else None)
@@ -267,7 +276,7 @@ def judge(ctx, cases, traces, lib_names, consts, label, drift=True):
         else:
             what = "LayoutExtractor.process_page %s, regions %s, lines %s: %s; line ids %s" % (
                 tr["opts"], tr["regs"], tr["lines"], cl, [ln["id"] for r in tr["result"] for ln in r["lines"]])
-        ctx.violation({"case": cases[i], "progress": prog}, signature(tr, prog), what)
+        _PENDING.append(({"case": cases[i], "progress": prog}, signature(tr, prog), what))
     if drift:
         keep = [i for i in range(len(traces)) if i not in rejected and traces[i]["kind"] == "assign"]
         if keep:
@@ -284,6 +293,20 @@ def judge(ctx, cases, traces, lib_names, consts, label, drift=True):
     return acc, rej
 
 
+_PENDING = []
+
+
+def flush(ctx):
+    """report the rejected executions: one of every signature first (replay files are kept for the first 50 only)"""
+    seen, first, rest = set(), [], []
+    for v in _PENDING:
+        (rest if v[1] in seen else first).append(v)
+        seen.add(v[1])
+    for case, sig, what in first + rest:
+        ctx.violation(case, sig, what)
+    del _PENDING[:]
+
+
 def _dbg(ctx, msg):
     if os.environ.get("VERIF_DEBUG"):
         sys.stderr.write("[c11 %6.1fs] %s\n" % (ctx.elapsed(), msg))
@@ -292,7 +315,8 @@ def _dbg(ctx, msg):
 def run(ctx):
     quick = ctx.tier == "quick"
     ctx.rule = ("Part A: every set of <= MaxRegs region shapes (rectangle, nested, concave U / L, overlapping, self-touching) x "
-                "every list of <= MaxLines horizontal lines on the 6 x 2 cell grid through the real assign_lines_to_regions; "
+                "every list of <= MaxLines horizontal lines on the 6 x 2 cell grid (and deep-notch U shapes on a 6 x 3 grid) through the "
+                "real assign_lines_to_regions; "
                 "Part B: every set of <= 2 of 3 shapes x every list of <= 2 lines on the 3 x 2 grid x 16 option combinations "
                 "through the real LayoutExtractor.process_page with a stub detector; non-trivial = at least one line placed")
     ctx.exhaustive = True
@@ -305,52 +329,68 @@ def run(ctx):
                "accepted: the statement demands placement only for lines wholly inside")
 
     # ---- design
-    a_cfg = (6, 2, 2, 2) if quick else (6, 2, 3, 2)
-    names_a = sorted(LIB_A)
-    ca = constants(*a_cfg, mode="assign")
-    ctx.tlc("MC_RegionAssign", constants=ca, invariants=INV_A, workers=4 if quick else 6, timeout=3000,
-            files={"MC_RegionAssign.tla": mc_module(LIB_A, names_a, "RegionAssign")},
-            label="RegionAssign Part A grid 6x2 regs<=%d lines<=%d" % (a_cfg[2], a_cfg[3]))
+    # pairs (region, line) are judged independently and only meet in the id numbering: quick covers (<= 2 regions, <= 1 line)
+    # and (<= 1 region, <= 2 lines); thorough every set of <= 3 regions with every list of <= 2 lines
+    # library D (6 x 3 grid, notches two rows deep) exercises the longest-piece rule on lines that are really cut in two
+    a_groups = [("A", [(2, 1), (1, 2)]), ("D", [(2, 1)])] if quick else [("A", [(3, 2)]), ("D", [(3, 2)])]
+    for ln, cfgs in a_groups:
+        lib, nc, nr = LIBS[ln]
+        for mr, ml in cfgs:
+            ctx.tlc("MC_RegionAssign", constants=constants(nc, nr, mr, ml), init="AInit", next_="ANext", invariants=INV_A,
+                    workers=4 if quick else 6, timeout=3000, files={"MC_RegionAssign.tla": mc_module(lib, sorted(lib), "RegionAssign")},
+                    label="RegionAssign Part A library %s grid %dx%d regs<=%d lines<=%d" % (ln, nc, nr, mr, ml))
     b_cfg = (3, 2, 2, 2) if quick else (3, 2, 3, 2)
     names_b = sorted(LIB_B)
-    cb = constants(*b_cfg, mode="extract")
+    cb = constants(*b_cfg)
     fb = {"MC_RegionAssign.tla": mc_module(LIB_B, names_b, "RegionAssign")}
-    ctx.tlc("MC_RegionAssign", constants=cb, invariants=INV_B, workers=4 if quick else 6, timeout=3000, files=fb,
+    ctx.tlc("MC_RegionAssign", constants=cb, init="BInit", next_="BNext", invariants=INV_B, workers=4 if quick else 6, timeout=3000, files=fb,
             label="RegionAssign Part B (option machine) grid 3x2 regs<=%d lines<=%d" % (b_cfg[2], b_cfg[3]))
-    ctx.tlc("MC_RegionAssign", constants=constants(3, 2, 1, 1, mode="extract", legacy=True), invariants=["PageIdsDistinct"],
+    ctx.tlc("MC_RegionAssign", constants=constants(3, 2, 1, 1, legacy=True), init="BInit", next_="BNext", invariants=["PageIdsDistinct"],
             workers=1, coverage=False, files=fb, expect_violation="PageIdsDistinct",
             label="self-test Legacy=TRUE (line id without orientation tag)")
-    ctx.notes["vacuity_note"] = ("the module has two modes: Part A runs never take the Part B actions and vice versa; the two main "
-                                 "configurations together take every action")
     _dbg(ctx, "design done")
 
     # ---- Part A: real assign_lines_to_regions on the same space
     import pero_ocr.layout_engines.layout_helpers     # noqa: F401  (import before forking)
     npts_choices = [[2], [3], [2, 3], [4, 2]]
-    cases = []
-    for regs in reg_sets(names_a, a_cfg[2]):
-        for idx, ls in enumerate(line_lists(a_cfg[0], a_cfg[1], a_cfg[3])):
-            cases.append({"kind": "assign", "lib": "A", "regs": regs, "lines": ls, "npts": npts_choices[(idx + len(regs)) % 4]})
-    traces = pmap(run_case, cases, procs=PROCS)
-    _dbg(ctx, "part A executed %d" % len(cases))
-    acc, rej = judge(ctx, cases, traces, (LIB_A, names_a), constants(6, 2, 1, 1, mode="assign"), "Part A")
-    _dbg(ctx, "part A judged")
-    rejected = {i for i, _ in rej}
-    good = next(i for i in range(len(traces) - 1, -1, -1) if i not in rejected and len(traces[i]["placed"]) >= 2)
-    ctx.sample({"part": "A", "regs": traces[good]["regs"], "lines": traces[good]["lines"],
-                "placed": [(p["region"], p["line"], p["id"]) for p in traces[good]["placed"]]})
+    selftested = False
+    for ln, cfgs in a_groups:
+        lib, nc, nr = LIBS[ln]
+        names = sorted(lib)
+        cases = []
+        seen = set()
+        for mr, ml in cfgs:
+            for regs in reg_sets(names, mr):
+                for idx, ls in enumerate(line_lists(nc, nr, ml)):
+                    key = (tuple(regs), tuple(map(tuple, ls)))
+                    if key not in seen:
+                        seen.add(key)
+                        cases.append({"kind": "assign", "lib": ln, "regs": regs, "lines": ls, "npts": npts_choices[(idx + len(regs)) % 4]})
+        traces = pmap(run_case, cases, procs=PROCS)
+        _dbg(ctx, "part A library %s executed %d" % (ln, len(cases)))
+        tconsts = constants(nc, nr, 1, 1)
+        acc, rej = judge(ctx, cases, traces, (lib, names), tconsts, "Part A library " + ln)
+        _dbg(ctx, "part A library %s judged" % ln)
+        rejected = {i for i, _ in rej}
+        good = next((i for i in range(len(traces) - 1, -1, -1) if i not in rejected and len(traces[i]["placed"]) >= 2), None)
+        if good is None:
+            continue
+        ctx.sample({"part": "A", "library": ln, "regs": traces[good]["regs"], "lines": traces[good]["lines"],
+                    "placed": [(p["region"], p["line"], p["id"]) for p in traces[good]["placed"]]})
+        if selftested:
+            continue
+        selftested = True
+        tfiles = {"MC_RegionAssign_Trace.tla": mc_module(lib, names, "RegionAssign_Trace")}
 
-    def corrupt(tr):
-        tr["placed"][0]["pts"][-1][0] += 2000        # the first placed line ends 2 px further right than recorded
-        return tr
-    ctx.selftest_corrupt("MC_RegionAssign_Trace", traces[good], corrupt, constants=dict(constants(6, 2, 1, 1, mode="assign"), Detailed=False),
-                         files={"MC_RegionAssign_Trace.tla": mc_module(LIB_A, names_a, "RegionAssign_Trace")})
+        def corrupt(tr):
+            tr["placed"][0]["pts"][-1][0] += 2000        # the first placed line ends 2 px further right than recorded
+            return tr
+        ctx.selftest_corrupt("MC_RegionAssign_Trace", traces[good], corrupt, constants=dict(tconsts, Detailed=False), files=tfiles)
 
-    def corrupt2(tr):
-        tr["placed"][1]["id"] = tr["placed"][0]["id"]  # two lines with one id
-        return tr
-    ctx.selftest_corrupt("MC_RegionAssign_Trace", traces[good], corrupt2, constants=dict(constants(6, 2, 1, 1, mode="assign"), Detailed=False),
-                         files={"MC_RegionAssign_Trace.tla": mc_module(LIB_A, names_a, "RegionAssign_Trace")})
+        def corrupt2(tr):
+            tr["placed"][1]["id"] = tr["placed"][0]["id"]  # two lines with one id
+            return tr
+        ctx.selftest_corrupt("MC_RegionAssign_Trace", traces[good], corrupt2, constants=dict(tconsts, Detailed=False), files=tfiles)
 
     # ---- Part B: real LayoutExtractor.process_page on the same space
     import pero_ocr.document_ocr.page_parser           # noqa: F401
@@ -363,10 +403,11 @@ def run(ctx):
                               "opts": {"dr": dr, "dl": dl, "merge": merge, "multi": multi}})
     traces = pmap(run_case, cases, procs=PROCS)
     _dbg(ctx, "part B executed %d" % len(cases))
-    judge(ctx, cases, traces, (LIB_B, names_b), constants(3, 2, 1, 1, mode="extract"), "Part B", drift=False)
+    judge(ctx, cases, traces, (LIB_B, names_b), constants(3, 2, 1, 1), "Part B", drift=False)
     k = next((i for i in range(len(traces)) if sum(len(r["lines"]) for r in traces[i]["result"]) >= 3), 0)
     ctx.sample({"part": "B", "opts": traces[k]["opts"], "regs": traces[k]["regs"], "lines": traces[k]["lines"],
                 "line_ids": [ln["id"] for r in traces[k]["result"] for ln in r["lines"]]})
+    flush(ctx)
     ctx.notes["explanation"] = (
         "TLC exhaustive on RegionAssign Part A (invariants %s) and Part B (%s); the same region sets / line lists / option "
         "combinations executed by the real assign_lines_to_regions and LayoutExtractor.process_page (stub detector) and validated "
@@ -377,7 +418,8 @@ def replay(ctx, rec):
     case = rec["case"]
     tr = run_case(case)
     if case["kind"] == "assign":
-        lib, names = (LIB_A, sorted(LIB_A)) if case["lib"] == "A" else (LIB_B, sorted(LIB_B))
-        judge(ctx, [case], [tr], (lib, names), constants(6, 2, 1, 1, mode="assign"), "replay", drift=False)
+        lib, nc, nr = LIBS[case["lib"]]
+        judge(ctx, [case], [tr], (lib, sorted(lib)), constants(nc, nr, 1, 1), "replay", drift=False)
     else:
-        judge(ctx, [case], [tr], (LIB_B, sorted(LIB_B)), constants(3, 2, 1, 1, mode="extract"), "replay", drift=False)
+        judge(ctx, [case], [tr], (LIB_B, sorted(LIB_B)), constants(3, 2, 1, 1), "replay", drift=False)
+    flush(ctx)
